@@ -11,7 +11,7 @@ ALLC = ['parse_indexes', 'scope', 'parse_path', 'parse_deletion_date']
 def config(tier):
     return {
         'level': 'exploration',
-        'cases': 900 if tier == 'quick' else 60000,
+        'cases': 3600 if tier == 'quick' else 60000,
         'budget_s': 50 if tier == 'quick' else 560,
         'floors': {'cases': 200, 'c_parse_indexes': 40000,
                    'c_original_location_matches_path': 40000,
